@@ -72,8 +72,11 @@ func c13Run(c *core.Case, o *core.Outcome) {
 		if j == 0 && r.IntN(2) == 0 {
 			// zero jitter is the identity for every rate an int can hold
 			profile = 6
+		} else if j != 0 && r.IntN(8) == 0 {
+			// rates of billions per tick
+			profile = 7
 		}
-		pname := []string{"zero", "constant", "bursts", "ramp", "random", "huge", "extreme"}[profile]
+		pname := []string{"zero", "constant", "bursts", "ramp", "random", "huge", "extreme", "billions"}[profile]
 		konst := 1 + r.IntN(500)
 		seqAt := func(k int) int {
 			switch profile {
@@ -90,6 +93,8 @@ func c13Run(c *core.Case, o *core.Outcome) {
 				return k % 977
 			case 4:
 				return int((uint64(k)*2654435761 + uint64(konst)) % 3000)
+			case 7:
+				return 3_000_000_000 + (k%5)*700_000_000 + konst
 			case 6:
 				return []int{1<<53 + 1, 1<<60 + 12345, math.MaxInt64 - konst, math.MaxInt64, 1<<62 + 1, konst, 1<<53 - 1}[k%7]
 			default:
@@ -109,8 +114,8 @@ func c13Run(c *core.Case, o *core.Outcome) {
 		var sumR, sumY float64
 		desc := fmt.Sprintf("jitter=%g profile=%s len=%d const=%d", j, pname, length, konst)
 		// the tick times are whatever the caller's clock says: distinct, frozen, repeated or going backwards
-		tsPat := r.IntN(5)
-		tsName := []string{"distinct", "frozen", "pairs", "backwards", "zero"}[tsPat]
+		tsPat := r.IntN(6)
+		tsName := []string{"distinct", "frozen", "pairs", "backwards", "zero", "sparse"}[tsPat]
 		desc += " timestamps=" + tsName
 		tsAt := func(i int) time.Time {
 			switch tsPat {
@@ -122,6 +127,9 @@ func c13Run(c *core.Case, o *core.Outcome) {
 				return time.Unix(int64(1_000_000-i/3), 0)
 			case 4:
 				return time.Time{}
+			case 5:
+				// ticks minutes or hours apart (a tick interval may be that long)
+				return time.Unix(int64(i)*int64(61+konst*7), 0)
 			}
 			return time.Unix(int64(i), 0)
 		}
